@@ -126,13 +126,21 @@ func (f *fakePeer) deliver(m *conn.Message) bool {
 
 type aqRec struct {
 	announcequeue.Queue
-	mu  sync.Mutex
-	log []string
+	mu   sync.Mutex
+	log  []string
+	main core.InfoHash // only calls for the torrent under observation are logged (bystander torrents are not)
 }
 
-func (a *aqRec) rec(s string) { a.mu.Lock(); a.log = append(a.log, s); a.mu.Unlock() }
-func (a *aqRec) Add(h core.InfoHash)   { a.rec("Add"); a.Queue.Add(h) }
-func (a *aqRec) Eject(h core.InfoHash) { a.rec("Eject"); a.Queue.Eject(h) }
+func (a *aqRec) rec(h core.InfoHash, s string) {
+	if h != a.main {
+		return
+	}
+	a.mu.Lock()
+	a.log = append(a.log, s)
+	a.mu.Unlock()
+}
+func (a *aqRec) Add(h core.InfoHash)   { a.rec(h, "Add"); a.Queue.Add(h) }
+func (a *aqRec) Eject(h core.InfoHash) { a.rec(h, "Eject"); a.Queue.Eject(h) }
 func (a *aqRec) take() []string {
 	a.mu.Lock()
 	defer a.mu.Unlock()
@@ -194,7 +202,7 @@ func one(c *eng.Ctx, t int, rng *rand.Rand, mode, dir string) bool {
 		DisablePreemption: true, EmitStatsInterval: time.Hour, PreemptionInterval: time.Hour, ProbeTimeout: tmo}
 	cfg.Dispatch.PieceRequestMinTimeout = time.Hour
 	g := &gate{applied: make(chan string, 256)}
-	aq := &aqRec{Queue: announcequeue.New()}
+	aq := &aqRec{Queue: announcequeue.New(), main: h}
 	pctx := core.PeerContextFixture()
 	pctx.Port = 0
 	vs, err := scheduler.NewVerifAgentScheduler(cfg, ta, pctx, clk, g, aq, networkevent.NewTestProducer())
@@ -208,7 +216,56 @@ func one(c *eng.Ctx, t int, rng *rand.Rand, mode, dir string) bool {
 			s.Stop()
 		}
 	}()
-	c.W.Reset(t, map[string]any{"npieces": npieces, "tti": tti, "mode": mode})
+	// ---- bystander torrents in the same scheduler (not part of the recorded history: torrents are independent of each
+	// other, so whatever happens to them must not show in the history of the torrent under observation): an idle seeder
+	// (complete, never served) and/or an idle leecher (in progress, never receives a piece).  Both go idle, and are
+	// dropped by preemption ticks, at times at which the observed torrent may be perfectly active.
+	bystanders := []string{}
+	addBystander := func(complete bool) {
+		bb := make([]byte, npieces*pl)
+		rng.Read(bb)
+		bsum := sha256.Sum256(bb)
+		bd, _ := core.NewSHA256DigestFromHex(hex.EncodeToString(bsum[:]))
+		bmi, err := core.NewMetaInfoFromBytes(bd, bb, pl)
+		if err != nil {
+			panic(err)
+		}
+		tc.Upload(bmi)
+		if complete {
+			bt, err := ta.CreateTorrent("ns", bd)
+			if err != nil {
+				panic(err)
+			}
+			for i := 0; i < npieces; i++ {
+				if err := bt.WritePiece(piecereader.NewBuffer(append([]byte{}, bb[i*pl:(i+1)*pl]...)), i); err != nil {
+					panic(err)
+				}
+			}
+		}
+		g.drain()
+		go s.Download("ns", bd) // a complete one returns at once; an in-progress one returns when it is dropped or at Stop
+		g.wait("scheduler.newTorrentEvent", tmo)
+		if complete {
+			g.wait("deferred:scheduler.dispatcherCompleteEvent", tmo)
+			for vs.Deferred() > 0 {
+				vs.Flush()
+			}
+		}
+		g.drain()
+		bystanders = append(bystanders, map[bool]string{true: "seeder", false: "leecher"}[complete])
+	}
+	if by := rng.Intn(4); mode == "c18" || by == 0 {
+		switch rng.Intn(3) {
+		case 0:
+			addBystander(true)
+		case 1:
+			addBystander(false)
+		default:
+			addBystander(true)
+			addBystander(false)
+		}
+	}
+	c.W.Reset(t, map[string]any{"npieces": npieces, "tti": tti, "mode": mode, "bystanders": bystanders})
 
 	reqNames := []string{"r1", "r2", "r3"}
 	issued := 0
